@@ -329,3 +329,12 @@ Definition dl_le (a b : dl_task) : Prop := dl_trig a <= dl_trig b.
 (* tasks placed on queue q, in order *)
 Definition dl_placed_on (q : Z) (os : list dl_out) : list dl_task :=
   map fst (filter (fun x => dl_q (fst x) =? q) (dl_placed os)).
+
+(* instance selector for the extracted driver *)
+Definition dl_pick (front : bool) : dl_pq_impl := if front then dl_sorted_pq_front else dl_sorted_pq.
+Definition dl_pq_size (I : dl_pq_impl) (s : dl_state I) : nat := pq_len I (dl_pq s).
+Definition dl_is_blocked (I : dl_pq_impl) (s : dl_state I) : bool :=
+  match dl_wait s with [] => false | _ => true end.
+Definition dl_wait_len (I : dl_pq_impl) (s : dl_state I) : nat := length (dl_wait s).
+Definition dl_buf_len (I : dl_pq_impl) (s : dl_state I) (q : Z) : nat :=
+  match dl_lookup (dl_qs s) q with Some qu => length (dl_buf qu) | None => O end.
